@@ -41,8 +41,24 @@ Proof.
   apply (prescan_wf lim (mode_mco f o) (mode_ecma o) o ts t mks (mode_ecma_mco f o) Hok Hp).
 Qed.
 
+(* without the guard *)
+Theorem parse_wf_weak : forall lim f o ts t mks its,
+  ts_ok_unguarded lim ts -> parse f o ts = Ok (t, mks, its) ->
+  wf_weak (mode_ecma o) t.
+Proof.
+  intros lim f o ts t mks its Hok H. destruct (parse_inv _ _ _ _ _ _ H) as [Hp _].
+  apply (prescan_wf_weak lim (mode_mco f o) (mode_ecma o) o ts t mks (mode_ecma_mco f o) Hok Hp).
+Qed.
+
+Theorem parse_vals : forall lim f o ts t mks its,
+  ts_ok_unguarded lim ts -> parse f o ts = Ok (t, mks, its) -> vals_ok t.
+Proof.
+  intros lim f o ts t mks its Hok H. destruct (parse_inv _ _ _ _ _ _ H) as [Hp _].
+  exact (prescan_vals lim _ _ o ts t mks (mode_ecma_mco f o) Hok Hp).
+Qed.
+
 Theorem parse_agrees : forall lim f o ts t mks its,
-  ts_ok lim (mode_mco f o) (mode_ecma o) ts -> parse f o ts = Ok (t, mks, its) ->
+  ts_ok_unguarded lim ts -> parse f o ts = Ok (t, mks, its) ->
   Forall2 (agrees t) mks its.
 Proof.
   intros lim f o ts t mks its Hok H. destruct (parse_inv _ _ _ _ _ _ H) as [Hp Hm].
@@ -88,7 +104,7 @@ Qed.
 (* ---------- C17: the lookups, packaged ---------- *)
 
 (* number -> slot is a monotone bijection from the group numbers onto [0, capsize) *)
-Theorem dense_map_bijective : forall ecma t, wf_tree ecma t ->
+Theorem dense_map_bijective : forall t, wf_caps t ->
   let r := compile_maps t in
   (forall k i, group_by_number r k = Some i -> In k (t_caps t) /\ 0 <= i < r_capsize r)
   /\ (forall k, In k (t_caps t) -> exists i, group_by_number r k = Some i)
@@ -96,26 +112,26 @@ Theorem dense_map_bijective : forall ecma t, wf_tree ecma t ->
   /\ (forall k1 k2 i1 i2, group_by_number r k1 = Some i1 -> group_by_number r k2 = Some i2 -> k1 < k2 -> i1 < i2)
   /\ get_group_numbers r = Ok (t_caps t).
 Proof.
-  intros ecma t WF r.
+  intros t WF r.
   assert (Hin : forall k i, group_by_number r k = Some i -> In k (t_caps t)).
   { intros k i H. destruct (in_dec Z.eq_dec k (t_caps t)) as [Hi|Hn]; [assumption|].
-    unfold r in H. rewrite (group_by_number_absent ecma t WF k Hn) in H. discriminate. }
+    unfold r in H. rewrite (group_by_number_absent t WF k Hn) in H. discriminate. }
   split; [|split; [|split; [|split]]].
   - intros k i H. split; [eauto|]. eapply group_by_number_range; eauto.
-  - intros k Hk. destruct (In_nth_error _ _ Hk) as [i Hi]. eexists. apply (group_by_number_spec ecma t WF i k Hi).
-  - intros i Hi. unfold r in Hi. rewrite (capsize_len ecma t WF) in Hi. unfold zlen in Hi.
+  - intros k Hk. destruct (In_nth_error _ _ Hk) as [i Hi]. eexists. apply (group_by_number_spec t WF i k Hi).
+  - intros i Hi. unfold r in Hi. rewrite (capsize_len t WF) in Hi. unfold zlen in Hi.
     destruct (nth_error (t_caps t) (Z.to_nat i)) as [k|] eqn:E; [|apply nth_error_None in E; lia].
     exists k. split; [eapply nth_error_In; eauto|].
-    unfold r. rewrite (group_by_number_spec ecma t WF _ k E). f_equal. lia.
+    unfold r. rewrite (group_by_number_spec t WF _ k E). f_equal. lia.
   - intros k1 k2 i1 i2 H1 H2 Hlt.
     destruct (In_nth_error _ _ (Hin _ _ H1)) as [j1 Hj1]. destruct (In_nth_error _ _ (Hin _ _ H2)) as [j2 Hj2].
     unfold r in H1, H2.
-    rewrite (group_by_number_spec ecma t WF j1 k1 Hj1) in H1. rewrite (group_by_number_spec ecma t WF j2 k2 Hj2) in H2.
+    rewrite (group_by_number_spec t WF j1 k1 Hj1) in H1. rewrite (group_by_number_spec t WF j2 k2 Hj2) in H2.
     injection H1 as <-. injection H2 as <-.
     destruct (Nat.lt_ge_cases j1 j2) as [Hj|Hj]; [lia|]. exfalso.
     destruct (Nat.eq_dec j1 j2) as [->|Hne]; [rewrite Hj1 in Hj2; injection Hj2 as ->; lia|].
-    pose proof (ssorted_nth_lt (t_caps t) j2 j1 k2 k1 (wt_sorted _ _ WF) Hj2 Hj1 ltac:(lia)). lia.
-  - apply (get_group_numbers_spec ecma t WF).
+    pose proof (ssorted_nth_lt (t_caps t) j2 j1 k2 k1 (wc_sorted _ WF) Hj2 Hj1 ltac:(lia)). lia.
+  - apply (get_group_numbers_spec t WF).
 Qed.
 
 (* all lookups designate the same group *)
@@ -137,35 +153,81 @@ Theorem maps_consistent : forall ecma t, wf_tree ecma t ->
   /\ (ecma = false -> forall s, In s names -> s <> []).
 Proof.
   intros ecma t WF r nums names.
-  split; [apply (names_length ecma t WF)|].
-  split; [apply (name_from_number_spec ecma t WF)|].
+  pose proof (wf_tree_caps ecma t WF) as WC.
+  pose proof (wf_weak_shape ecma t (wf_tree_weak ecma t WF)) as WS.
+  split; [apply (names_length ecma t WC WS)|].
+  split; [apply (name_from_number_spec ecma t WC WS)|].
   split; [apply (number_name_number ecma t WF)|].
   split; [apply (name_number_name ecma t WF)|].
   split; [apply (group_by_name_spec t)|].
   split; [apply (group_by_name_listed ecma t WF)|].
-  split; [apply (groups_names_spec ecma t WF)|].
-  intros He s Hs. destruct (In_nth_error _ _ Hs) as [i Hi].
-  assert (Hlt : (i < length nums)%nat).
-  { unfold nums. rewrite <- (names_length ecma t WF). change (GMLookups.names t) with names.
-    apply nth_error_Some. congruence. }
-  destruct (nth_error nums i) as [k|] eqn:Hk; [|apply nth_error_None in Hk; lia].
-  destruct (number_from_name_spec ecma t WF i k s Hk Hi) as [[He' _]|[Hne _]]; [congruence|assumption].
+  split; [apply (groups_names_spec ecma t WC WS)|].
+  apply (names_nonempty ecma t WS).
 Qed.
+
+(* the part of [maps_consistent] that needs no guard (weak well-formedness): everything except the
+   name <-> number round trips and GroupByName of a listed name; of those only this remains: the name
+   listed for a group is a name GroupNumberFromName knows, and it leads to a group — to THIS group,
+   unless the name is this group's numeral (an unnamed group) which is also the name of another group *)
+Theorem maps_consistent_weak : forall ecma t, wf_weak ecma t -> vals_ok t ->
+  let r := compile_maps t in
+  let nums := t_caps t in
+  let names := get_group_names r in
+  length names = length nums
+  /\ (forall i k, nth_error nums i = Some k -> group_name_from_number r k = nth i names [])
+  /\ (forall i k s, nth_error nums i = Some k -> nth_error names i = Some s ->
+        (ecma = true /\ s = [])
+        \/ (s <> [] /\ In (group_number_from_name r s) nums
+                    /\ (group_number_from_name r s = k \/ s = itoa k)))
+  /\ (forall s, group_by_name r s =
+                if group_number_from_name r s <? 0 then None else group_by_number r (group_number_from_name r s))
+  /\ groups_names ecma r = names
+  /\ (ecma = false -> forall s, In s names -> s <> []).
+Proof.
+  intros ecma t WW HV r nums names.
+  pose proof (ww_caps _ _ WW) as WC.
+  pose proof (wf_weak_shape ecma t WW) as WS.
+  split; [apply (names_length ecma t WC WS)|].
+  split; [apply (name_from_number_spec ecma t WC WS)|].
+  split.
+  { intros i k s Hk Hs. unfold names, get_group_names in Hs. unfold group_number_from_name.
+    destruct (r_names t) as [Hm Hl]. fold r in Hm, Hl. rewrite Hm. rewrite Hl in Hs.
+    pose proof (ww_names _ _ WW) as W. unfold vals_ok in HV.
+    destruct (t_caplist t) as [l|] eqn:El; destruct (t_capnames t) as [m|] eqn:Em; try contradiction.
+    - destruct W as [F _].
+      pose proof (Forall2_nth _ _ _ _ _ _ F Hs Hk) as Hent.
+      destruct Hent as [He|[Hne [v [Hv Hor]]]]; [now left|right].
+      split; [assumption|]. rewrite Hv. split; [eapply HV; eauto|assumption].
+    - right. destruct W as [Hnone _].
+      destruct (maps_shape t WC) as [[_ [Hc [Hsz Hz]]]|[Hsome _]]; [|congruence]. fold r in Hc, Hsz.
+      assert (Hi : (i < length nums)%nat) by (apply nth_error_Some; congruence).
+      unfold nums in *. rewrite Hz in Hk, Hi. rewrite zrange_length in Hi. rewrite zrange_nth in Hk by assumption. injection Hk as <-.
+      rewrite nth_error_map in Hs. rewrite Hsz in Hs. rewrite zrange_nth in Hs by assumption. cbn in Hs. injection Hs as <-.
+      assert (Hne : itoa (Z.of_nat i) <> []) by (apply itoa_nonempty; lia).
+      split; [assumption|].
+      assert (Hpd : parse_decimal (r_capsize r) (itoa (Z.of_nat i)) 0 = Z.of_nat i) by (rewrite Hsz; apply parse_decimal_itoa; lia).
+      destruct (itoa (Z.of_nat i)) eqn:E; [contradiction|]. rewrite Hpd.
+      split; [rewrite Hz; apply zrange_In; lia|now left]. }
+  split; [apply (group_by_name_spec t)|].
+  split; [apply (groups_names_spec ecma t WC WS)|].
+  apply (names_nonempty ecma t WS).
+Qed.
+
 
 (* references: "$n" / "${n}" and "${name}" in a replacement, and the nodes the main pass creates
    for groups, "\n", "\k<name>", "(?(n)..." — all go through the same number -> slot map *)
-Theorem refs_use_same_map : forall ecma t, wf_tree ecma t -> vals_ok t ->
+Theorem refs_use_same_map : forall t, wf_caps t -> vals_ok t ->
   let r := compile_maps t in
   (forall n, dollar_num r n = group_by_number r n)
   /\ (forall s, dollar_name r s = match r_capnames r with Some _ => group_by_name r s | None => None end)
   /\ (forall k i, group_by_number r k = Some i -> map_capnum r k = i).
 Proof.
-  intros ecma t WF HV r.
-  assert (Hnn : forall k, In k (t_caps t) -> 0 <= k) by (apply (caps_nonneg ecma t WF)).
+  intros t WF HV r.
+  assert (Hnn : forall k, In k (t_caps t) -> 0 <= k) by (apply (caps_nonneg t WF)).
   destruct (r_names t) as [Hrn _]. fold r in Hrn.
   assert (Hnum : forall n, dollar_num r n = group_by_number r n).
   { intros n. unfold dollar_num, is_slot_re, to_slot, group_by_number.
-    destruct (maps_shape ecma t WF) as [[_ [Hc [Hs Hz]]]|[_ [Hc Hs]]]; fold r in Hc, Hs; rewrite Hc.
+    destruct (maps_shape t WF) as [[_ [Hc [Hs Hz]]]|[_ [Hc Hs]]]; fold r in Hc, Hs; rewrite Hc.
     - rewrite Hs. destruct (0 <=? n) eqn:E1; destruct (n <? t_captop t) eqn:E2; cbn [andb];
         destruct (t_captop t <=? n) eqn:E3; destruct (n <? 0) eqn:E4; cbn [orb]; try reflexivity;
         apply Z.leb_le in E3 || apply Z.leb_gt in E3; apply Z.ltb_lt in E4 || apply Z.ltb_ge in E4;
@@ -175,7 +237,7 @@ Proof.
       assert (Hin : In n (t_caps t)) by (eapply zget_combine_some_in; exact Eg).
       specialize (Hnn n Hin).
       destruct (In_nth_error _ _ Hin) as [i Hi].
-      pose proof (group_by_number_spec ecma t WF i n Hi) as Hb. fold r in Hb.
+      pose proof (group_by_number_spec t WF i n Hi) as Hb. fold r in Hb.
       unfold group_by_number in Hb. rewrite Hc, Eg in Hb.
       destruct ((r_capsize r <=? v) || (v <? 0)) eqn:Ec; [discriminate|].
       destruct m as [|p m']; [discriminate Eg|].
@@ -190,12 +252,12 @@ Proof.
     destruct (k <? 0) eqn:E; [apply Z.ltb_lt in E; lia|].
     rewrite <- Hnum. unfold dollar_num.
     destruct (In_nth_error _ _ HV) as [i Hi].
-    pose proof (group_by_number_spec ecma t WF i k Hi) as Hb. fold r in Hb. rewrite <- Hnum in Hb.
+    pose proof (group_by_number_spec t WF i k Hi) as Hb. fold r in Hb. rewrite <- Hnum in Hb.
     unfold dollar_num in Hb. destruct (is_slot_re r k); [reflexivity|discriminate Hb].
   - intros k i H. unfold map_capnum.
     assert (Hin : In k (t_caps t)).
     { destruct (in_dec Z.eq_dec k (t_caps t)) as [Hi|Hn]; [assumption|].
-      unfold r in H. rewrite (group_by_number_absent ecma t WF k Hn) in H. discriminate. }
+      unfold r in H. rewrite (group_by_number_absent t WF k Hn) in H. discriminate. }
     specialize (Hnn k Hin). destruct (k =? -1) eqn:E; [apply Z.eqb_eq in E; lia|].
     unfold group_by_number in H.
     destruct (r_caps r) as [m|].
